@@ -376,3 +376,8 @@ def run(model, rep):
     rule_e(model, rep)
     rule_f(model, rep)
     rule_gh(model, rep)
+    from . import shared
+    shared.falsy_zero_lint(model, rep, "C09.i-zero-is-a-value", lambda un: un.startswith(("passlib.handlers", "passlib.utils.handlers")),
+                           lambda un, q: q.split(".")[-1] == "using",
+                           witness="using(<option>=0) is silently ignored: the derived hasher keeps the inherited setting")
+    rep.minimum("C09.i-zero-is-a-value", 8)
